@@ -62,11 +62,11 @@ def file_pool(rng):
     return pool
 
 
-def model_detect(inspect, names, pool):
+def model_detect(inspect, names, pool, at='@'):
     toks = ['cli', '1' if inspect else '0', str(len(names))]
     for n in names:
         c = pool[n]
-        toks.append(X.s_tok('@' + n))
+        toks.append(X.s_tok(at + n))
         if c is None or c == '<dir>':
             toks.append('U')
         else:
@@ -96,7 +96,7 @@ def err_kind(line):
 
 class Check:
     pid = 'C19'
-    rule = ('file lists of 1..6 [1..12] drawn from a pool with every message class the generators reach, a completed running order, '
+    rule = ('[files and the S3 variants -b/-p/-s/-k against an in-memory fake] ' 'file lists of 1..6 [1..12] drawn from a pool with every message class the generators reach, a completed running order, '
             'classifiable messages whose inspect() raises, non-XML, empty, unknown XML, unknown roElementAction, a directory and a '
             'missing path x {detect, inspect}; merge with every combination of --incomplete / --non-strict / -o over valid, '
             'incomplete, invalid and failing collections and no arguments; each through mosromgr.cli.main in a subprocess. '
@@ -118,11 +118,43 @@ class Check:
             runs.append({'cmd': cmd, 'names': sel, 'files': {n_: pool[n_] for n_ in set(sel)}, 'argv': [cmd, '-f'] + ['@' + n_ for n_ in sel]})
         return runs
 
+    def s3_detect_runs(self, tier, rng, pool):
+        """detect / inspect over a bucket: -b with -p [and -s], or -k.  The fake lists keys in insertion order,
+        two per page with empty pages between, and only those under the prefix."""
+        good = [n_ for n_ in sorted(pool) if pool[n_] not in (None, '<dir>')]
+        runs = []
+        for r in range(16 if tier == 'quick' else 100):
+            sel = rng.sample(good, rng.randrange(1, 6))
+            objects = {}
+            for n_ in sel:
+                objects['ro/' + n_] = pool[n_]
+            objects['ro/notes.txt'] = 'not a MOS file'
+            objects['ro/plain.xml'] = pool[sel[-1]]                  # matched by -s .xml only
+            objects['ro/old.mos.xml.bak'] = pool[sel[0]]             # matched by no suffix used here
+            objects['other/' + sel[0]] = pool[sel[0]]
+            keys = list(objects)
+            rng.shuffle(keys)
+            objects = {k: objects[k] for k in keys}
+            cmd = 'inspect' if r % 2 else 'detect'
+            mode = r % 4
+            if mode == 3:
+                key = 'ro/' + sel[0]
+                argv, listed = [cmd, '-b', 'bucket', '-k', key], [key]
+            else:
+                suffix = [None, '.mos.xml', '.xml'][mode]
+                argv = [cmd, '-b', 'bucket', '-p', 'ro/'] + (['-s', suffix] if suffix else [])
+                listed = [k for k in objects if k.startswith('ro/') and k.endswith(suffix or '.mos.xml')]
+            runs.append({'cmd': cmd, 'names': listed, 'files': {}, 's3': objects, 'argv': argv})
+        return runs
+
     def judge_detect(self, run, res, pool):
         """the property oracle: every file gets its line, in order; bad files never hide the others"""
         from mosromgr.mostypes import MosFile
         out_lines = res['stdout'].split('\n')
         want_out, want_err = [], []
+        at = '@'
+        if run.get('s3') is not None:
+            pool, at = run['s3'], ''             # the names are S3 keys, printed as they are
         for n_ in run['names']:
             c = pool[n_]
             cls = None
@@ -133,10 +165,10 @@ class Check:
                 except Exception:
                     cls = None
             if cls is None:
-                want_err.append('@%s: Invalid' % n_)
+                want_err.append('%s%s: Invalid' % (at, n_))
             else:
-                want_out.append('@%s: %s' % (n_, cls))
-        got_out = [l for l in out_lines if l.startswith('@') and ': ' in l and l.split(': ')[0][1:] in pool]
+                want_out.append('%s%s: %s' % (at, n_, cls))
+        got_out = [l for l in out_lines if l.startswith(at) and ': ' in l and l.split(': ')[0][len(at):] in pool]
         if run['cmd'] == 'detect':
             got_out = [l for l in out_lines if l]
         if [l for l in got_out if any(l == w for w in want_out)] != want_out:
@@ -180,6 +212,23 @@ class Check:
                             argv += ['-o', '@' + outf]
                         runs.append({'cmd': 'merge', 'set': name, 'inc': inc, 'ns': ns, 'files': files, 'argv': argv, 'outfile': outf,
                                      'order': sorted(files, reverse=True)})
+        # the same collections kept in a bucket: merge -b bucket -p ro/ [-s .mos.xml]
+        for name in ('valid', 'incomplete', 'failing', 'mixed-ids', 'no-create', 'equal-ids'):
+            files = sets[name]
+            order = sorted(files, reverse=True)
+            for inc in (False, True):
+                for ns in (False, True):
+                    for suffix in (None, '.mos.xml', '.xml'):
+                        argv = ['merge', '-b', 'bucket', '-p', 'ro/'] + (['-s', suffix] if suffix else []) + (['--incomplete'] if inc else []) + (['-n'] if ns else [])
+                        late = to_text(story_append(8, [gens.new_story('LATE')]))          # a key that only -s .xml matches
+                        objects = {'other/zz.mos.xml': files[order[0]], 'ro/readme.txt': 'no'}
+                        objects.update({'ro/' + f: files[f] for f in order})
+                        objects['ro/late.xml'] = late
+                        fs, od = files, order
+                        if suffix == '.xml':
+                            fs, od = dict(files, **{'late.xml': late}), order + ['late.xml']
+                        runs.append({'cmd': 'merge', 'set': name + '@s3', 'inc': inc, 'ns': ns, 'files': fs, 's3': objects, 'argv': argv,
+                                     'outfile': None, 'order': od})
         runs.append({'cmd': 'merge', 'set': 'no-args', 'inc': False, 'ns': False, 'files': {}, 'argv': ['merge'], 'outfile': None})
         runs.append({'cmd': 'merge', 'set': 'no-args', 'inc': True, 'ns': True, 'files': {}, 'argv': ['merge', '-i', '-n'], 'outfile': None})
         return runs
@@ -215,20 +264,23 @@ class Check:
 
     def run(self, tier, rng, log):
         pool = file_pool(rng)
-        druns = self.detect_runs(tier, rng, pool)
+        druns = self.detect_runs(tier, rng, pool) + self.s3_detect_runs(tier, rng, pool)
         mruns = self.merge_runs(tier, rng)
-        res = run_cli([{'files': r['files'], 'argv': r['argv'], 'outfile': r.get('outfile')} for r in druns + mruns])
+        res = run_cli([{'files': r['files'], 'argv': r['argv'], 'outfile': r.get('outfile'), 's3': r.get('s3')} for r in druns + mruns])
         vio, dis, sigs, samples = [], [], set(), []
         for r, o in zip(druns, res[:len(druns)]):
             what = self.judge_detect(r, o, pool)
-            status, lines = model_detect(r['cmd'] == 'inspect', r['names'], pool)
+            if r.get('s3') is not None:
+                status, lines = model_detect(r['cmd'] == 'inspect', r['names'], r['s3'], at='')
+            else:
+                status, lines = model_detect(r['cmd'] == 'inspect', r['names'], pool)
             m_out = '\n'.join(s for k, s in lines if k == 'O')
             m_err = [err_kind(s) for k, s in lines if k == 'E']
             i_out = o['stdout'].rstrip('\n') if r['cmd'] == 'detect' else o['stdout'][:-1] if o['stdout'].endswith('\n') else o['stdout']
             i_err = [err_kind(l) for l in o['stderr'].split('\n') if l]
-            sigs.add((r['cmd'], tuple(sorted({n_.split('-')[0] for n_ in r['names']})), o['status']))
+            sigs.add((r['cmd'], 's3' if r.get('s3') is not None else 'files', tuple(sorted({n_.split('/')[-1].split('-')[0] for n_ in r['names']})), o['status']))
             if what:
-                vio.append({'what': what, 'case': {'kind': 'cli', 'argv': r['argv'], 'files': r['files']}, 'impl': [o['status'], o['stdout'][:400], o['stderr'][:400]], 'expected': [m_out[:400], m_err]})
+                vio.append({'what': what, 'case': {'kind': 'cli', 'argv': r['argv'], 'files': r['files'], 's3': r.get('s3'), 'names': r['names'], 'cmd': r['cmd']}, 'impl': [o['status'], o['stdout'][:400], o['stderr'][:400]], 'expected': [m_out[:400], m_err]})
             if (i_out, i_err, o['status']) != (m_out, m_err, None if status == 0 else status):
                 dis.append({'case': {'kind': 'cli', 'argv': r['argv'], 'files': r['files']}, 'impl': [o['status'], i_out[:600], i_err], 'model': [status, m_out[:600], m_err], 'explained': bool(what)})
             if len(samples) < 2 and len(r['names']) > 2:
@@ -255,7 +307,7 @@ class Check:
             i_status = 0 if o['status'] is None else o['status']
             i_doc = (o['outfile'] if r['outfile'] else o['stdout'].rstrip('\n')) if i_status == 0 else None
             if what:
-                vio.append({'what': what, 'case': {'kind': 'cli', 'argv': r['argv'], 'files': r['files'], 'outfile': r.get('outfile')}, 'impl': [o['status'], o['stderr'][:300]], 'expected': [m_status]})
+                vio.append({'what': what, 'case': {'kind': 'cli', 'argv': r['argv'], 'files': r['files'], 's3': r.get('s3'), 'outfile': r.get('outfile')}, 'impl': [o['status'], o['stderr'][:300]], 'expected': [m_status]})
             if (i_status, i_doc) != (m_status, m_doc):
                 dis.append({'case': {'kind': 'cli', 'argv': r['argv'], 'files': r['files']}, 'impl': [i_status, (i_doc or '')[:300]], 'model': [m_status, (m_doc or '')[:300]], 'explained': bool(what)})
         return {'evaluations': len(res), 'distinct': len(sigs), 'rule': self.rule, 'samples': samples,
@@ -265,15 +317,18 @@ class Check:
         case = rep.get('case') or {}
         if 'argv' not in case:
             return {'violation': False, 'note': str(rep.get('detail'))}
-        o = run_cli([{'files': case['files'], 'argv': case['argv'], 'outfile': case.get('outfile')}])[0]
+        o = run_cli([{'files': case['files'], 'argv': case['argv'], 'outfile': case.get('outfile'), 's3': case.get('s3')}])[0]
         if case['argv'][0] == 'merge':
+            order = [a[1:] for a in case['argv'] if a.startswith('@') and a[1:] in case['files']]
+            if case.get('s3') is not None:
+                order = [k[3:] for k in case['s3'] if k.startswith('ro/') and k[3:] in case['files']]
             run = {'files': case['files'], 'set': 'replay', 'outfile': case.get('outfile'),
-                   'order': [a[1:] for a in case['argv'] if a.startswith('@') and a[1:] in case['files']],
+                   'order': order,
                    'inc': '--incomplete' in case['argv'] or '-i' in case['argv'], 'ns': '-n' in case['argv'] or '--non-strict' in case['argv']}
             what = self.judge_merge(run, o)
         else:
-            names = [a[1:] for a in case['argv'] if a.startswith('@')]
-            what = self.judge_detect({'cmd': case['argv'][0], 'names': names}, o, case['files'])
+            names = case.get('names') or [a[1:] for a in case['argv'] if a.startswith('@')]
+            what = self.judge_detect({'cmd': case['argv'][0], 'names': names, 's3': case.get('s3')}, o, case['files'])
         return {'violation': bool(what), 'what': what, 'status': o['status'], 'stderr': o['stderr'][:300]}
 
     def shrink(self, v):
